@@ -215,6 +215,12 @@ fn command_go(
         time = Some(Duration::from_millis(move_time));
     }
 
+    // The flag has to be raised before the timer thread exists, otherwise
+    // a short timer could clear it first and the search would never be stopped
+    #[cfg(daniel729_chess_verif)]
+    crate::verif_hooks::schedule_point("before_flag_raise");
+    search_is_running.store(true, Relaxed);
+
     if let Some(time) = time {
         if !infinite {
             // Cut 5 ms from the time because sleep always takes more than given
@@ -237,9 +243,6 @@ fn command_go(
     }
 
     let thread = thread::spawn({
-        #[cfg(daniel729_chess_verif)]
-        crate::verif_hooks::schedule_point("before_flag_raise");
-        search_is_running.store(true, Relaxed);
         let data_mutex = data_mutex.clone();
         let search_is_running = search_is_running.clone();
         move || {
